@@ -317,6 +317,22 @@ BODYSETS = {
 }
 
 
+TRANSLATED_BODIES = {
+    "src/management_api.rs": ["add_policy", "add_policies", "remove_policy", "remove_policies", "add_named_policy", "add_named_policies",
+                              "remove_named_policy", "remove_named_policies", "add_grouping_policy", "add_grouping_policies",
+                              "remove_grouping_policy", "remove_grouping_policies", "add_named_grouping_policy", "add_named_grouping_policies",
+                              "remove_named_grouping_policy", "remove_named_grouping_policies", "remove_filtered_policy",
+                              "remove_filtered_grouping_policy", "remove_filtered_named_policy", "remove_filtered_named_grouping_policy"],
+    "src/rbac_api.rs": ["add_permission_for_user", "add_permissions_for_user", "add_role_for_user", "add_roles_for_user", "delete_role_for_user",
+                        "delete_roles_for_user", "delete_user", "delete_role", "delete_permission", "delete_permission_for_user",
+                        "delete_permissions_for_user"],
+    "src/cached_enforcer.rs": ["set_role_manager", "set_model", "set_adapter", "build_role_links", "load_policy", "load_filtered_policy",
+                               "clear_policy", "add_function", "set_effector", "enable_enforce", "save_policy", "enable_auto_save",
+                               "enable_auto_build_role_links", "enable_auto_notify_watcher", "private_enforce", "private_enforce_with_context",
+                               "enforce", "enforce_mut", "enforce_with_context"],
+}
+
+
 def pins_bodysets(out):
     for setname, items in BODYSETS.items():
         pin_bodies(out, setname, items)
@@ -333,6 +349,26 @@ def pins_bodysets(out):
         cut = src.find("#[cfg(test)]")
         if cut >= 0:
             src = src[:cut]
+        # bodies that tools/rs2coq*.py TRANSLATE and prove equal to the model are tied semantically
+        # (PcApiGen.v, PcCachedGen.v): they are left out of the textual pin, so a meaning-preserving
+        # rewrite of them raises no alarm while everything else in the file stays pinned
+        for fname in TRANSLATED_BODIES.get(rel, []):
+            pos = 0
+            while True:
+                m = re.search(r"fn\s+" + fname + r"\s*(?:<[^>]*>)?\s*\(", src[pos:])
+                if not m:
+                    break
+                k = pos + m.end()
+                semi = src.find(";", k)
+                i = src.find("{", k)
+                if i < 0 or (0 <= semi < i):
+                    pos = k
+                    continue
+                body = balanced(src, i)
+                if body is None:
+                    break
+                src = src[:i] + "{/*translated*/}" + src[i + len(body):]
+                pos = i + 5
         norm = re.sub(r"\s+", " ", strip_rust_comments(src)).strip()
         h = hashlib.sha256(norm.encode("utf-8")).hexdigest()[:16] if src else "missing"
         out.append("Definition pin_body_%s_all : text := %s." % (name, T(h)))
